@@ -69,7 +69,11 @@ func parsePoKPayload(bytes []byte) (*pokPayload, error) {
 		return nil, errors.New("invalid size of PoK payload")
 	}
 
-	revealed := bitvectorToIndexes(reverseBytes(bytes[2:offset]))
+	// work on a copy: reverseBytes is in place and must not touch the caller's proof
+	bitvector := make([]byte, offset-2)
+	copy(bitvector, bytes[2:offset])
+
+	revealed := bitvectorToIndexes(reverseBytes(bitvector))
 
 	return &pokPayload{
 		messagesCount: messagesCount,
